@@ -27,8 +27,10 @@ import (
 	"github.com/tetratelabs/telemetry"
 	"github.com/tetratelabs/telemetry/function"
 	"google.golang.org/grpc"
+	apierrors "k8s.io/apimachinery/pkg/api/errors"
 	"sigs.k8s.io/controller-runtime/pkg/client"
 	"sigs.k8s.io/controller-runtime/pkg/client/fake"
+	"sigs.k8s.io/controller-runtime/pkg/client/interceptor"
 
 	configv1 "github.com/istio-ecosystem/authservice/config/gen/go/v1"
 	oidcv1 "github.com/istio-ecosystem/authservice/config/gen/go/v1/oidc"
@@ -232,6 +234,8 @@ type World struct {
 	crossFilterKnown bool
 	corruptStore     bool
 	jwksBusy         bool
+	k8sFailNext      int
+	k8sInReconcile   bool
 	FaultsOff        bool
 	stall            *stallCtl
 	Boots            int
@@ -536,7 +540,17 @@ func (w *World) bootReplica(idx int) *Replica {
 	}
 	if needK8s {
 		if w.K8s == nil {
-			w.K8s = fake.NewClientBuilder().Build()
+			// the API server: a fake client whose reads the simulator can fail while the controller reconciles
+			w.K8s = fake.NewClientBuilder().WithInterceptorFuncs(interceptor.Funcs{
+				Get: func(ctx context.Context, c client.WithWatch, key client.ObjectKey, obj client.Object, opts ...client.GetOption) error {
+					if w.k8sInReconcile && w.k8sFailNext > 0 {
+						w.k8sFailNext--
+						w.countFault("k8s-api-read-error")
+						return apierrors.NewServiceUnavailable("sim: the API server is unavailable")
+					}
+					return c.Get(ctx, key, obj, opts...)
+				},
+			}).Build()
 		}
 		r.secrets = k8s.NewSecretController(r.cfg)
 		if err := r.secrets.VerifSetup("default", w.K8s); err != nil {
